@@ -20,7 +20,7 @@ EXTENDS PieMon, Json
 
 CONSTANTS
   NT, NR, NV, NA, LEN,        \* tasks 1..NT, resources 1..NR, values 0..NV-1, accumulator 0..NA-1, rows 0..LEN
-  Family,                     \* "WF" | "INJ" | "ROLE" | "FAULT" | "ABORT"
+  Family,                     \* "WF" | "INJ" | "ROLE" | "FAULT" | "ABORT" | "TWOCHK"
   Writer,                     \* <<w_1, .., w_NR>>: static writer of each resource (0 = source); WF families
   RChks, OChks, WChks, Fs,    \* checker ids / value functions the lazily generated programs may use
   MaxSessions, MaxChanges, MaxRoots, MaxBU,
@@ -47,7 +47,7 @@ TaskIds == 1..NT
 ResIds == 1..NR
 
 P(pr) == [prog |-> pr, nt |-> NT, nr |-> NR, nv |-> NV, na |-> NA, fam |-> Family, id |-> "model",
-          base |-> [t \in TaskIds |-> t],
+          base |-> [t \in TaskIds |-> t], rinst |-> [r \in ResIds |-> TRUE],
           exact |-> RChks \subseteq {"eq"} /\ OChks \subseteq {"eq"} /\ WChks \subseteq {"eq"}]
 
 (***************************************************************************)
@@ -307,9 +307,10 @@ Did(t, kinds, x) == \E i \in DOMAIN PerfOf(t) : PerfOf(t)[i].k \in kinds /\ Perf
 DidWith(t, kinds, x, c) == \A i \in DOMAIN PerfOf(t) : (PerfOf(t)[i].k \in kinds /\ PerfOf(t)[i].x = x) => PerfOf(t)[i].c = c
 
 \* rules common to all families: no self-inflicted diagnoses, one checker per target per execution
+\* (family TWOCHK lifts the one-checker rule: recorded finding K2)
 Sane(t, op) ==
-  CASE op.k = "rd" -> ~Did(t, {"wr"}, op.x) /\ DidWith(t, {"rd"}, op.x, op.c)
-    [] op.k = "rq" -> op.x # t /\ DidWith(t, {"rq"}, op.x, op.c)
+  CASE op.k = "rd" -> ~Did(t, {"wr"}, op.x) /\ (Family = "TWOCHK" \/ DidWith(t, {"rd"}, op.x, op.c))
+    [] op.k = "rq" -> op.x # t /\ (Family = "TWOCHK" \/ DidWith(t, {"rq"}, op.x, op.c))
     [] op.k \in {"wr", "wt"} -> ~Did(t, {"wr", "rd"}, op.x)
     [] OTHER -> TRUE
 
